@@ -3,7 +3,9 @@
 // stops reporting the `bad_*` function or starts reporting the `good_*` one is broken and says so (exit 2).
 #include <algorithm>
 #include "BaseGraph/directed_graph.hpp"
+#include <cstdio>
 #include <list>
+#include <sstream>
 #include <vector>
 
 namespace BaseGraph {
@@ -75,6 +77,17 @@ inline std::string bad_noexcept(const std::string &line) noexcept {
 
 inline std::size_t good_noexcept(const std::string &line) noexcept { return line.size(); }
 
+// F-IO.READ (look-ahead) ------------------------------------------------------------------------------------
+inline bool bad_lookahead(std::istream &stream) {
+    char next;
+    return (next = stream.peek()) != EOF;       // 0xFF is taken for the end of the file
+}
+
+inline bool good_lookahead(std::istream &stream) {
+    int next = stream.peek();
+    return next != EOF;
+}
+
 } // namespace fixture
 } // namespace BaseGraph
 
@@ -92,4 +105,7 @@ void bgcheck_fixture_use() {
     (void)BaseGraph::fixture::good_cursor(l);
     (void)BaseGraph::fixture::bad_noexcept("a b");
     (void)BaseGraph::fixture::good_noexcept("a b");
+    std::istringstream in("x");
+    (void)BaseGraph::fixture::bad_lookahead(in);
+    (void)BaseGraph::fixture::good_lookahead(in);
 }
